@@ -271,6 +271,25 @@ func RunScenario(sc *Scenario, ch vsched.Chooser, trace bool) (*vsched.Result, *
 			vsched.Quiesce()
 			rec.DaemonsLeft = vsched.DaemonsLeft()
 			rec.OpenHandlesAtEnd = sys.Disk.OpenHandles
+			// every DeleteRange that returned nil has removed its segments for good: once the readers are done
+			// (they are) their files are gone, whether or not the WAL was closed in between
+			allOK := true
+			for _, ev := range rec.Events {
+				if ev.Op.K == "D" && ev.Err != "" {
+					allOK = false
+				}
+			}
+			if exp, err := ExpectedListing(sys.MetaRaw()); err == nil && allOK {
+				in := map[string]bool{}
+				for _, n := range exp {
+					in[n] = true
+				}
+				for _, n := range sys.List() {
+					if !in[n] && strings.HasSuffix(n, ".wal") {
+						rec.PostViol = append(rec.PostViol, Violation{Prop: "C13", Msg: fmt.Sprintf("every DeleteRange returned nil, all readers finished and the WAL is closed, yet the directory still holds %s, which the metadata no longer lists (%v)", n, exp)})
+					}
+				}
+			}
 		} else {
 			// every thread is done and background work has run: the files of segments that
 			// truncations removed must be gone, nothing else may be missing
